@@ -20,7 +20,7 @@ TEXT = {
         "technique": "Rocq theorems over a Gallina model + generated name tables + differential correspondence + property oracle",
     },
     "C18": {
-        "text": "The catalogue theorem is evaluated on the error-site table regenerated from the sources on every run: outside a closed, justified list of sites bounded below 8 value bytes, no error message formats a value-derived string unless hidden behind a SafeError, and every error that quotes its input (strconv, hex, json) is hidden or bounded. The Describe masking theorems show the printed value never contains the complete PAN / PIN block, and the filters of Track1, Track2 and Track3 fields show every packable well-formed track with the PAN masked and nothing else changed; a track the field cannot parse again is shown by its first and last four characters (repair of F31, found by the thorough tier), and every output of a track filter is one of these two forms - never the raw text. The dynamic oracle induces failures with high-entropy secrets across kinds, encodings and operations and greps the library's error texts and Describe output (partial: the translator's classification is syntactic; tracks carried in String fields are checked by search only).",
+        "text": "The catalogue theorem is evaluated on the error-site table regenerated from the sources on every run: outside a closed, justified list of sites bounded below 8 value bytes, no error message formats a value-derived string unless hidden behind a SafeError, and every error that quotes its input (strconv, hex, json) is hidden or bounded. The Describe masking theorems show the printed value never contains the complete PAN / PIN block, and the filters of Track1, Track2 and Track3 fields show every packable well-formed track with the PAN masked and nothing else changed; a track the field cannot parse again is shown by its first and last four characters (repair of F31, found by the thorough tier), and every output of a track filter is one of these two forms - never the raw text; String fields that carry track data (as fields 35 / 36 / 45 of the shipped specs) are modelled as well and shown exactly as the track field would be. The dynamic oracle induces failures with high-entropy secrets across kinds, encodings and operations and greps the library's error texts and Describe output (partial: the translator's classification is syntactic).",
         "design_ref": "DESIGN.md section 6 C18",
         "note": "Trusted: Coq kernel, the go/ast error-site translator and its argument classes, hand-written masking model validated by correspondence through the real Describe, Go harness.",
         "technique": "Rocq theorems over a generated error-site catalogue and a masking model + secret-grepping oracle",
@@ -38,7 +38,7 @@ TEXT = {
         "technique": "Rocq theorems over a Gallina model + differential correspondence + property oracle",
     },
     "C14": {
-        "text": "Theorems quantified over every message state (hence every point of every operation sequence): the bits of the packed bitmap (auto-expanding or fixed), continuation bits aside, are exactly the ids GetFields reports; JSON is built from the same set and succeeds iff Pack does; Pack/JSON do not change values or the set; the set per operation: a setter adds exactly its id, Marshal of a struct adds exactly the ids of its non-zero indexed fields, UnsetField removes exactly its id and resets the whole nested state, UnsetSubfields by path (any depth) leaves nothing populated at the path, an as-new object there and every other path as it was, a successful Unpack of any bytes leaves the MTI, the bitmap and exactly the announced elements, UnmarshalJSON adds exactly the keys of the accepted document (messages, and composites at any depth); over histories: after any operation sequence every data element outside the populated set is exactly as in a new message, so nothing can come back. The model of all operations is compared with the library after every step of random and exhaustive short histories; the oracle keeps a reference set (written since creation or the last Unpack, minus unset) and checks - in a quiet replay that performs only the history's operations - that nothing that was unset, replaced by an Unpack, or decoded by a failed Unpack ever comes back (this found and led to the repair of F28 and F30).",
+        "text": "Theorems quantified over every message state (hence every point of every operation sequence): the bits of the packed bitmap (auto-expanding or fixed), continuation bits aside, are exactly the ids GetFields reports; JSON is built from the same set and succeeds iff Pack does; Pack/JSON do not change values or the set; the set per operation: a setter adds exactly its id, Marshal of a struct adds exactly the ids of its non-zero indexed fields, UnsetField removes exactly its id and resets the whole nested state, UnsetSubfields by path (any depth) leaves nothing populated at the path, an as-new object there and every other path as it was, a successful Unpack of any bytes leaves the MTI, the bitmap and exactly the announced elements, UnmarshalJSON adds exactly the keys of the accepted document (messages, and composites at any depth), what Unmarshal copies out is a function of the populated set and the content of the populated elements; over histories: after any operation sequence every data element outside the populated set is exactly as in a new message, so nothing can come back. The model of all operations is compared with the library after every step of random and exhaustive short histories; the oracle keeps a reference set (written since creation or the last Unpack, minus unset) and checks - in a quiet replay that performs only the history's operations - that nothing that was unset, replaced by an Unpack, or decoded by a failed Unpack ever comes back (this found and led to the repair of F28 and F30).",
         "design_ref": "DESIGN.md section 6 C14",
         "note": 'Trusted: Coq kernel, hand-written model (Model/Message.v, Model/Json.v, Model/MessageOps.v) validated by correspondence on every run, extraction/driver, Go harness and property oracle.',
         "technique": "Rocq theorems over a Gallina model + differential correspondence + property oracle",
@@ -68,13 +68,13 @@ TEXT = {
         "technique": "Rocq theorems over a Gallina model + differential correspondence + property oracle",
     },
     "C04": {
-        "text": "All leaf decoders and every primitive Unpack are proved total (Ok or Err, the model's panic primitives unreachable), reads are proved bounded by the input, what a decoder returns is at most twice and what a primitive field holds at most four times the bytes consumed, the bitmap loop is proved to terminate within its fuel; every field (any nesting, all three composite modes), every message over well-formed specs and every track field (Unpack and SetBytes) returns a count or an error for every byte string - the model's Panic and out-of-fuel outcomes are unreachable - and the shipped specs are well-formed. The model is compared with the library (each run in a child process under ulimit -v and a timeout) on mutated, truncated and adversarial inputs. Wall-clock time and the allocator's behaviour are measured, not proved (partial).",
+        "text": "All leaf decoders and every primitive Unpack are proved total (Ok or Err, the model's panic primitives unreachable), reads are proved bounded by the input, what a decoder returns is at most twice and what a primitive field holds at most four times the bytes consumed, and what a whole field tree or a whole message holds after an accepted Unpack (every populated primitive at every depth) is at most four times the bytes consumed - announced lengths never enter the bound, and the shipped specs satisfy its hypotheses -, the bitmap loop is proved to terminate within its fuel; every field (any nesting, all three composite modes), every message over well-formed specs and every track field (Unpack and SetBytes) returns a count or an error for every byte string - the model's Panic and out-of-fuel outcomes are unreachable - and the shipped specs are well-formed. The model is compared with the library (each run in a child process under ulimit -v and a timeout) on mutated, truncated and adversarial inputs. Wall-clock time and the allocator's behaviour are measured, not proved (partial).",
         "design_ref": "DESIGN.md section 6 C04",
         "note": 'Trusted: Coq kernel, hand-written model (Model/Field.v, Model/Message.v) validated by correspondence on every run, extraction/driver, Go harness incl. the spec/value generators and the property oracle.',
         "technique": "Rocq theorems over a Gallina model + differential correspondence + property oracle",
     },
     "C08": {
-        "text": 'Theorems: Pack of a primitive or of a composite (at the root of any spec tree) succeeds only if the (padded) value / total encoded length is within the maximum, equals the fixed length and fits the digits; an accepted Unpack has an announced length within the maximum and within the bytes available; for whole specification trees: when Pack of a field of any coherent specification succeeds, the declared length was enforced at every node that contributed bytes, at every depth.',
+        "text": 'Theorems: Pack of a primitive or of a composite (at the root of any spec tree) succeeds only if the (padded) value / total encoded length is within the maximum, equals the fixed length and fits the digits; an accepted Unpack has an announced length within the maximum and within the bytes available; for whole specification trees: when Pack of a field of any coherent specification succeeds, the declared length was enforced at every node that contributed bytes, at every depth, likewise for every populated data element of a packed message; on the Unpack side everything a successful Unpack of a field or message leaves populated, at every depth, was itself produced by a successful Unpack of its own specification, so the per-node statements about announced lengths hold at every node.',
         "design_ref": "DESIGN.md section 6 C08",
         "note": 'Trusted: Coq kernel, hand-written model (Model/Field.v, Model/Message.v) validated by correspondence on every run, extraction/driver, Go harness incl. the spec/value generators and the property oracle.',
         "technique": "Rocq theorems over a Gallina model + differential correspondence + property oracle",
